@@ -16,7 +16,7 @@ def decls_by_ctx(resp):
 class C12(HistCheck):
     pid = 'C12'
     monitors = {'rup': True}
-    hist_kw = dict(unsat_bias=0.35, defines=0.03, ncmds=(8, 28))
+    hist_kw = dict(unsat_bias=0.04, defines=0.02, ncmds=(10, 30), clausal=0.9, horn=0.45, hard3=0.6, p_push=0.1, p_pop=0.09, reenter=0.1)
     rule = ('every learnt / final-conflict / strengthened / resolvent / split-unit clause traced by the guarded DRUP-style hooks is checked by reverse unit '
             'propagation inside osim at the moment it is derived, against all input, theory and previously checked clauses; engines default/lookahead/picky/ghost, '
             'SatELite on and off, perturbed restart / reduceDB / GC schedule; non-trivial run = >= 1 derived clause needing >= 2 propagation steps; distinct = hash of (history, config)')
